@@ -64,6 +64,28 @@ type chunkReader struct {
 	calls       int
 }
 
+// failingReader delivers its data in chunks of k and then returns a non-EOF error.
+type failingReader struct {
+	data []byte
+	k    int
+}
+
+func (r *failingReader) Read(p []byte) (int, error) {
+	if len(r.data) == 0 {
+		return 0, fmt.Errorf("injected read fault")
+	}
+	n := r.k
+	if n > len(r.data) {
+		n = len(r.data)
+	}
+	if n > len(p) {
+		n = len(p)
+	}
+	copy(p, r.data[:n])
+	r.data = r.data[n:]
+	return n, nil
+}
+
 func (r *chunkReader) Read(p []byte) (int, error) {
 	r.calls++
 	if r.calls > 1<<22 {
@@ -154,9 +176,22 @@ func digestCase(c *ev.Case) {
 				{"chunk(1)", &chunkReader{data: in.b, k: 1}},
 				{fmt.Sprintf("chunk(%d)+zero-reads", k), &chunkReader{data: in.b, k: k, zeroReads: true}},
 			}
-			for _, r := range readers {
+			for ri, r := range readers {
 				var got []byte
 				var err error
+				if (ri+c.Index)%2 == 0 {
+					// fault sequence: a stream that fails part-way (its result is not
+					// judged) must not influence the digest of the next, healthy stream
+					junk := rng.Bytes(rng.Pick(1, 5, 64, 100, 300))
+					fr := &failingReader{data: junk, k: rng.Pick(1, 7, 64)}
+					if !c.Guard(d.name+"Stream", func() { _, _ = d.stream(fr) }) {
+						return
+					}
+					if c.Logging() {
+						c.Logf("  %sStream(reader failing after %d bytes) -> not judged", d.name, len(junk))
+					}
+					c.Add("digest_stream_after_failed_stream", 1)
+				}
 				if !c.Guard(d.name+"Stream", func() { got, err = d.stream(r.r) }) {
 					return
 				}
